@@ -995,7 +995,14 @@ func searchOneShard(ctx context.Context, s zoekt.Searcher, q query.Q, opts *zoek
 		}
 	}()
 
-	return s.Search(ctx, q, opts)
+	sr, err = s.Search(ctx, q, opts)
+	if err != nil && index.IsCorrupt(err) {
+		// The shard file is damaged. Report it like a crash of this shard instead
+		// of failing the whole search.
+		logShardCrash("search", s, q, err, nil)
+		return &zoekt.SearchResult{Stats: zoekt.Stats{Crashes: 1}}, nil
+	}
+	return sr, err
 }
 
 type shardListResult struct {
@@ -1016,6 +1023,10 @@ func listOneShard(ctx context.Context, s zoekt.Searcher, q query.Q, opts *zoekt.
 	}()
 
 	ms, err := s.List(ctx, q, opts)
+	if err != nil && index.IsCorrupt(err) {
+		logShardCrash("list", s, q, err, nil)
+		ms, err = &zoekt.RepoList{Crashes: 1}, nil
+	}
 	sink <- shardListResult{ms, err}
 }
 
